@@ -9,6 +9,7 @@ import (
 	"context"
 	"errors"
 	"fmt"
+	"os"
 	"runtime"
 	"sort"
 	"strings"
@@ -194,6 +195,10 @@ var stackBuf = make([]byte, 1<<20)
 // not counting the caller and the goroutine waiting in synctest.Run.
 func bubbleGoroutines() int64 {
 	n := runtime.Stack(stackBuf, true)
+	for n == len(stackBuf) && len(stackBuf) < 1<<28 { // goroutines left behind by earlier cases make the dump long
+		stackBuf = make([]byte, 2*len(stackBuf))
+		n = runtime.Stack(stackBuf, true)
+	}
 	group := ""
 	cnt := 0
 	for _, line := range strings.Split(string(stackBuf[:n]), "\n") {
@@ -218,20 +223,41 @@ func bubbleGoroutines() int64 {
 	return int64(cnt - 2)
 }
 
-// bubble runs f in a synctest bubble; a bubble that cannot end (a goroutine blocked for
-// ever) is reported instead of crashing the harness.
-func bubble(f func()) (deadlock bool) {
-	defer func() {
-		if r := recover(); r != nil {
-			if strings.Contains(fmt.Sprint(r), "deadlock") {
-				deadlock = true
-				return
+// bubble runs f in a synctest bubble.  A bubble that cannot end because a goroutine is
+// blocked for ever is reported (deadlock); so is a bubble in which a goroutine keeps
+// running without ever blocking, so that virtual time cannot advance any more (hung:
+// decided by a generous wall-clock limit; the harness stops after recording that case,
+// because the spinning goroutine cannot be stopped).
+func bubble(f func()) (deadlock, hung bool) {
+	done := make(chan bool, 1)
+	go func() {
+		dl := false
+		defer func() {
+			if r := recover(); r != nil {
+				if strings.Contains(fmt.Sprint(r), "deadlock") {
+					dl = true
+				} else {
+					panic(r)
+				}
 			}
-			panic(r)
-		}
+			done <- dl
+		}()
+		synctest.Run(f)
 	}()
-	synctest.Run(f)
-	return false
+	select {
+	case dl := <-done:
+		return dl, false
+	case <-time.After(hangLimit):
+		return false, true
+	}
+}
+
+const hangLimit = 20 * time.Second
+
+func stopAfterHang() {
+	fmt.Println("NOTE a call kept running without blocking after its deadline: virtual time could not advance; the harness stopped after recording this case")
+	w.Close()
+	os.Exit(0)
 }
 
 func (r *callResult) snapshot() (cls, ret int64, ms string, comps []int64) {
@@ -243,7 +269,7 @@ func (r *callResult) snapshot() (cls, ret int64, ms string, comps []int64) {
 func runCollect(tags string, rd round, probes []int64) {
 	counts := make([]int64, len(probes))
 	var res *callResult
-	dead := bubble(func() {
+	dead, hung := bubble(func() {
 		start := time.Now()
 		var c client.ReferenceClockClient
 		var cancel context.CancelFunc
@@ -263,10 +289,18 @@ func runCollect(tags string, rd round, probes []int64) {
 	}
 	if cls == -1 {
 		cls = 5 // the call never returned
+		if hung {
+			cls = 6 // ... and never blocked either
+		}
 	}
 	if len(rd.ms0) != len(rd.clocks) {
 		comps = nil
 	}
+	defer func() {
+		if hung {
+			stopAfterHang()
+		}
+	}()
 	w.Case("collect", tags,
 		lib.V(lib.I(rd.D), fmtScripts(rd.clocks), fmtMrecs(rd.ms0), lib.IL(probes)),
 		lib.V(lib.I(cls), lib.I(ret), ms, lib.IL(comps), lib.IL(counts)))
@@ -275,7 +309,7 @@ func runCollect(tags string, rd round, probes []int64) {
 func runHistory(tags string, ops []round, tend int64) {
 	results := make([]*callResult, len(ops))
 	var cnt int64
-	dead := bubble(func() {
+	dead, hung := bubble(func() {
 		start := time.Now()
 		var c client.ReferenceClockClient
 		var cancels []context.CancelFunc
@@ -295,13 +329,24 @@ func runHistory(tags string, ops []round, tend int64) {
 	if dead && cnt == 0 {
 		cnt = 1
 	}
+	defer func() {
+		if hung {
+			stopAfterHang()
+		}
+	}()
 	as := make([]string, len(ops))
-	os := make([]string, len(ops))
+	obs := make([]string, len(ops))
 	for i, op := range ops {
+		if results[i] == nil { // never started: the bubble hung before
+			results[i] = &callResult{cls: -1, ret: -1, ms: toMs(op.ms0)}
+		}
 		as[i] = lib.L(lib.I(op.start), lib.I(op.D), fmtScripts(op.clocks), fmtMrecs(op.ms0))
 		cls, ret, ms, comps := results[i].snapshot()
 		if cls == -1 {
 			cls = 5
+			if hung {
+				cls = 6
+			}
 		}
 		if cls != 0 {
 			started := false
@@ -314,9 +359,9 @@ func runHistory(tags string, ops []round, tend int64) {
 				comps = nil
 			}
 		}
-		os[i] = lib.L(lib.I(cls), lib.I(ret), ms, lib.IL(comps))
+		obs[i] = lib.L(lib.I(cls), lib.I(ret), ms, lib.IL(comps))
 	}
-	w.Case("history", tags, lib.V(lib.L(as...), lib.I(tend)), lib.V(lib.L(os...), lib.I(cnt)))
+	w.Case("history", tags, lib.V(lib.L(as...), lib.I(tend)), lib.V(lib.L(obs...), lib.I(cnt)))
 }
 
 // ---- generators ----
@@ -553,6 +598,8 @@ func genHistory(r *lib.Rng) {
 		}
 		// where to start relative to the call in progress
 		switch {
+		case i > 0 && r.Intn(6) == 0:
+			tags["burst"] = true // at the same instant as the call before
 		case busyUntil > t && r.Intn(3) != 0:
 			t = t + r.Range(0, busyUntil-t-1) // while the earlier call is in progress
 		case busyUntil >= t && r.Intn(2) == 0:
@@ -691,9 +738,9 @@ func main() {
 		return
 	}
 	r := lib.NewRng(a.Seed)
-	nc, nh := 2500, 1200
+	nc, nh := 7000, 3500
 	if a.Tier == "thorough" {
-		nc, nh = 60000, 25000
+		nc, nh = 120000, 50000
 	}
 	corpus()
 	for i := 0; i < nc; i++ {
@@ -731,4 +778,10 @@ func corpus() {
 	three := round{start: 20, D: 30, clocks: []script{ok(0, 1, 0, 5)}, ms0: st(1)}
 	four := round{start: 100, D: 30, clocks: []script{ok(0, 1, 0, 6), bad(2, 0, 0, 7)}, ms0: st(2)}
 	runHistory("busy,reuse,boundary,nt", []round{one, two, three, four}, 700)
+	// three calls at one instant: one that returns at once, one with unequal lengths, one more
+	b1 := round{start: 24, D: 1, clocks: []script{ok(3, -1, 0, 3)}, ms0: st(1)}
+	b2 := round{start: 24, D: 2, clocks: nil, ms0: st(1)}
+	b3 := round{start: 24, D: 1716, clocks: nil, ms0: nil}
+	b4 := round{start: 24, D: 236, clocks: []script{ok(0, 236, 0, 1), ok(0, 236, 1, 2)}, ms0: st(2)}
+	runHistory("boundary,burst,len", []round{b1, b2, b3, b4}, 1749)
 }
